@@ -148,6 +148,11 @@ def screen_check(scn, res, all_chunks):
             m = _POS.match(text)
             body = text[m.end():] if m else text
             user = [c for key, (c, cap) in all_chunks.items() if not cap and key[0] == tid and c and c in body]
+            rest = body
+            for c in user:
+                rest = rest.replace(c, "", 1)
+            if v["hooked"] and v["h"] is not None and not (rest == "" if v["h"] == 0 else rest.count("\n") == v["h"] - 1):
+                v["h"] = None   # the hooked flush of this thread rendered to nothing (no write call); this is a later, plain write
             if v["hooked"] and v["h"] is not None:
                 erase = 0 if v["pos"] is None else v["pos"]   # rows erased (an empty frame still erases the row it is on)
                 if erase != (disp_h if v["pos"] is None else max(disp_h, 1)) and stale is None:
@@ -165,8 +170,8 @@ def screen_check(scn, res, all_chunks):
                     stale = ("start", tid, 0, disp_h)
                 for c in user:
                     printed += c[:-1].split("\n")
-                if text == "\n" and active:            # Console.line() of stop(): the frame becomes finished output
-                    printed += frame or [""]           # (an empty frame occupies the blank row the cursor is on)
+                if text == "\n" and not user:          # Console.line() of stop(): the frame becomes finished output
+                    printed += (frame if active and frame else [""])   # (an empty / never drawn frame: the blank row the cursor is on)
                     frame, disp_h, finished, active = [], 0, True, False
                 elif "\x1b[1A" in text and not user:    # restore_cursor() of a transient stop
                     n = text.count("\x1b[1A")
